@@ -130,6 +130,13 @@ func guard(f func() *failure) (fl *failure) {
 func report(t *rapid.T, rec *ev.Recorder, c any, fl *failure) {
 	rec.Fail(c, fl.Msg)
 	rec.Flush()
+	if strings.Contains(fl.Msg, "did not return within") {
+		// A hang: the abandoned goroutine is still running (and may be allocating without bound), and
+		// every shrink attempt would wait for the deadline again. The recorded case is the replay;
+		// the process ends here.
+		fmt.Fprintf(os.Stderr, "%s\n(hang: reported without shrinking)\n", fl.Msg)
+		os.Exit(1)
+	}
 	t.Fatalf("%s", fl.Msg)
 }
 
